@@ -26,7 +26,7 @@
 From Coq Require Import ZArith QArith Qminmax List.
 From VL Require Import Prelude.PyDict Model.GetNBest Model.Convert Model.Cardinal Proofs.Cardinal_proofs
      Proofs.MJ_proofs Proofs.JR_proofs Model.Condorcet Model.Star Proofs.Star_proofs
-     Model.Quota Model.AllocScore Proofs.AllocScore_proofs Proofs.MJ_removal_proofs Proofs.MJ_seats_proofs Proofs.Shape2_proofs Proofs.Star_seats_proofs Proofs.ScoreDict_proofs.
+     Model.Quota Model.AllocScore Proofs.AllocScore_proofs Proofs.MJ_removal_proofs Proofs.MJ_seats_proofs Proofs.Shape2_proofs Proofs.Star_seats_proofs Proofs.ScoreDict_proofs Proofs.Truncation_proofs.
 From Coq Require Import Permutation.
 Import ListNotations.
 Close Scope Q_scope.
@@ -573,6 +573,63 @@ Proof.
   destruct Hin.
 Qed.
 
+(* ---- score aggregation: the corrections of ScoreToSimpleVotes against their definition (Proofs/Truncation_proofs.v).
+   [d]: one candidate's score -> count dictionary (counts >= 0, scores numerically distinct: cs_okd; C12_corrected_scores_ok
+   gives it for the dictionaries the converter builds); [expand d]: the list of its scores; cnt p l = length (filter p l);
+   lev t y: y <= t; gev t y: t <= y.
+   Truncation with cut-off c >= 0: the sweep over the ascending keys removes EXACTLY the c lowest scores - for every
+   threshold t the number of scores <= t drops by min(c, that number) - and the sweep over the descending keys exactly
+   the c highest of what is left; no KeyError. *)
+Theorem C12_score_truncation : forall d c, cs_okd d -> (0 <= c)%Z ->
+  let keys := sort_q (map fst d) in
+  exists d2 d3, subtract_lowest d keys c 0 = Some d2 /\ subtract_lowest d2 (rev keys) c 0 = Some d3 /\ cs_okd d3 /\
+    (forall t, Z.of_nat (cnt (lev t) (expand d2)) = Z.max 0 (Z.of_nat (cnt (lev t) (expand d)) - c)) /\
+    (forall t, Z.of_nat (cnt (gev t) (expand d3)) = Z.max 0 (Z.of_nat (cnt (gev t) (expand d2)) - c)).
+Proof.
+  intros d c Hd Hc keys. destruct (truncation_spec d c Hd Hc) as (d2 & d3 & E2 & E3 & Hd3 & H2 & H3).
+  exists d2, d3. split; [exact E2|]. split; [exact E3|]. split; [exact Hd3|].
+  split; intros t; rewrite !cnt_expand; [apply H2|apply H3].
+Qed.
+
+(* correct_scores clause by clause: min_count (fewer scores -> min_count copies of bottom_value), unscored_value (the voters
+   that did not score the candidate add their number of copies of the configured value, or of the candidate's lowest
+   score), no truncation, truncation with the cut-off trunc_cutoff (an absolute count when truncation >= 1, else
+   floor(voters * truncation)): the c lowest, then the c highest scores are dropped *)
+Theorem C12_score_corrections : forall cf d n_votes, cs_okd d -> (cs_total d <= n_votes)%Z ->
+  ((cs_total d < sc_min_count cf)%Z -> correct_scores cf d n_votes = inl [(sc_bottom cf, sc_min_count cf)]) /\
+  ((sc_min_count cf <= cs_total d)%Z ->
+     (forall d1, unscored_fill cf d n_votes = inl d1 ->
+        cs_okd d1 /\
+        forall p, (forall x y, (x == y)%Q -> p x = p y) ->
+          wcnt p d1 = wcnt p d + match sc_unscored cf with
+                                 | UNone => 0
+                                 | UConst v => if p v then Z.to_nat (n_votes - cs_total d) else 0
+                                 | UMin => match list_min (expand d) with
+                                           | Some v => if p v then Z.to_nat (n_votes - cs_total d) else 0
+                                           | None => 0
+                                           end
+                                 end) /\
+     (Qle_bool (sc_trunc cf) 0 = true -> correct_scores cf d n_votes = unscored_fill cf d n_votes) /\
+     (Qle_bool (sc_trunc cf) 0 = false -> (0 <= n_votes)%Z ->
+        forall d1, unscored_fill cf d n_votes = inl d1 ->
+          let c := trunc_cutoff cf d n_votes in
+          (0 <= c)%Z /\
+          exists d2 d3, correct_scores cf d n_votes = inl d3 /\ cs_okd d3 /\
+            (forall t, Z.of_nat (wcnt (lev t) d2) = Z.max 0 (Z.of_nat (wcnt (lev t) d1) - c)) /\
+            (forall t, Z.of_nat (wcnt (gev t) d3) = Z.max 0 (Z.of_nat (wcnt (gev t) d2) - c)))).
+Proof. exact correct_scores_spec. Qed.
+
+(* 1,1,2,3,3,5 with cut-off 2: 2 and 3 are left *)
+Example C12_score_truncation_example :
+  let d : cscores := [(1, 2%Z); (2, 1%Z); (3, 2%Z); (5, 1%Z)]%Q in
+  cs_okd d /\ exists d2, subtract_lowest d (sort_q (map fst d)) 2 0 = Some d2 /\
+    exists d3, subtract_lowest d2 (rev (sort_q (map fst d))) 2 0 = Some d3 /\ sort_q (expand d3) = [2; 3]%Q.
+Proof.
+  split.
+  - split; [repeat constructor; cbn; discriminate|]. apply cs_distinctb_ok. vm_compute. reflexivity.
+  - eexists. split; [vm_compute; reflexivity|]. eexists. split; vm_compute; reflexivity.
+Qed.
+
 Print Assumptions C12_combinations_complete.
 Print Assumptions C12_combinations_sound.
 Print Assumptions C12_pav_optimal.
@@ -618,3 +675,5 @@ Print Assumptions C12_star_seats.
 Print Assumptions C12_star_single_exact.
 Print Assumptions C12_corrected_scores_ok.
 Print Assumptions C12_mj_seats_default_wf.
+Print Assumptions C12_score_truncation.
+Print Assumptions C12_score_corrections.
